@@ -78,7 +78,7 @@ def run_all(seed, tier, configs):
         res["ok"] = False
         res["problems"].append({"kind": "build", "detail": r["build_error"]})
         return res
-    sdir = kv.stream_dir("capi", seed, tier)
+    sdir = kv.stream_dir("capi", seed, tier, ["debug"])
     script = os.path.join(sdir, "capi_script.txt")
     exp = expected_of(sdir)
     libs = {}
